@@ -92,8 +92,18 @@ func (drap *draPlugin) restoreAllClaims() {
 		log.InfraLogger.Errorf("Failed to list resource claims for state reconciliation: %v", err)
 		return
 	}
-	for _, claim := range claims {
-		drap.manager.ResourceClaims().AssumedClaimRestore(claim.Namespace, claim.Name)
+	// The allocated-device set behind the assume-cache is a plain set that is updated claim by claim: restoring a
+	// claim that loses its assumed allocation removes its devices, restoring one that gets its informer allocation
+	// back adds them. A device that moved between two claims since the last session (the victim's claim was
+	// deallocated and the preemptor's claim was given its device) must be removed before it is added, otherwise it
+	// ends up missing from the set although the victim still holds it. So: first the claims that are allocated in
+	// the cache, then the ones that are not.
+	for _, allocatedInCache := range []bool{true, false} {
+		for _, claim := range claims {
+			if (claim.Status.Allocation != nil) == allocatedInCache {
+				drap.manager.ResourceClaims().AssumedClaimRestore(claim.Namespace, claim.Name)
+			}
+		}
 	}
 	log.InfraLogger.V(4).Infof("Restored %d resource claims to informer state", len(claims))
 }
